@@ -48,9 +48,19 @@ Section Proto2Queue.
   Definition rel_wakes (w : world) (c t : N) (mine : bool) : list ctrl :=
     (if mine then [CtlConn c] else []) ++ (if is_none (targets w !! t) then [] else [CtlMaster t]).
 
+  (* a transaction event: transaction.Watcher -> the transaction's own index and, for every proposal named in
+     Status.Proposals, the NextIndex of that proposal when it is set (the transactions that follow this one on each of
+     its targets: they may wait at a SERIALIZABLE gate).  The watcher reads the proposal when it handles the event, i.e.
+     at some moment after the write; NextIndex is written once (0 -> n), so a later read can only add an id.  The model
+     reads at the moment of the write: the smallest wake-up set any delivery time can produce. *)
+  Definition tx_wakes (w : world) (i : N) (T : @txn Ch) : list ctrl :=
+    CtlTx i :: flat_map (fun t => match props w !! (t, i) with
+                                  | Some P => if p_next P =? 0 then [] else [CtlTx (p_next P)]
+                                  | None => [] end) (default [] (t_props T)).
+
   Definition wakes (w : world) (e : eff) : list ctrl :=
     match e with
-    | EPutTx i _ => [CtlTx i]                                    (* transaction.Watcher *)
+    | EPutTx i T => tx_wakes w i T
     | ECreateProp k _ => match props w !! k with Some _ => [] | None => prop_wakes k end   (* AlreadyExists: no event *)
     | EPutProp k _ => prop_wakes k
     | ECreateCfg t c => match cfgs w !! t with Some _ => [] | None => cfg_wakes t c end
